@@ -455,6 +455,12 @@ class SimulationAlgorithm(BaseSimulationAlgorithm):
         """
 
         self._check_logistic_model(model)
+        unknown_features = [f for f in self.features if f not in model.features]
+        if unknown_features or len(set(self.features)) != len(self.features):
+            raise LeaspyAlgoInputError(
+                f"Features to simulate should be distinct features of the model {model.features}, "
+                f"given {self.features}"
+            )
         self.model = model
 
     def _generate_visit_ages(self, df: pd.DataFrame) -> dict:
@@ -585,10 +591,12 @@ class SimulationAlgorithm(BaseSimulationAlgorithm):
             ),
         )
 
+        # position, in the model, of each requested feature
+        features_index = [model.features.index(feat) for feat in self.features]
         df_long = pd.concat(
             [
                 pd.DataFrame(
-                    values[id_].clip(max=0.9999999, min=0.00000001),
+                    values[id_][:, features_index].clip(max=0.9999999, min=0.00000001),
                     index=pd.MultiIndex.from_product(
                         [[id_], dict_timepoints[id_]], names=["ID", "TIME"]
                     ),
@@ -604,7 +612,7 @@ class SimulationAlgorithm(BaseSimulationAlgorithm):
                 var = model.parameters["noise_std"].item() ** 2
             else:
                 mu = df_long[feat + "_no_noise"]
-                var = model.parameters["noise_std"][i].numpy() ** 2
+                var = model.parameters["noise_std"][features_index[i]].numpy() ** 2
 
             # Clamp variance where necessary (too big variance and mu too close to 1)
             max_var = mu * (1 - mu)
